@@ -41,19 +41,22 @@ def run_modes(chk, data, out, tag, nrun):
         ptol = (1e-3 * quantum + 8 * eps * BOX)[:, None] if n else 0
         vtol = 8 * eps * np.abs(evel) + 1e-300
         ref = {}
-        for pm, vm in itertools.product(('alloc', 'supplied', 'strided', 'skip'), repeat=2):
+        for pm, vm in itertools.product(('alloc', 'supplied', 'strided', 'exact', 'skip'), repeat=2):
             if pm == 'skip' and vm == 'skip':
+                continue
+            if 'exact' in (pm, vm) and (len(data) > 5000 or 'strided' in (pm, vm)):
                 continue
             if 'strided' in (pm, vm) and len(data) > 5000:
                 continue
             # 'strided': a preallocated output that is a non-contiguous view (columns of a wider buffer), as a caller filling a structured table would pass
             sbuf = np.full((len(data), 7), np.nan, dtype=dt)
-            posout = {'alloc': None, 'supplied': np.full((len(data), 3), np.nan, dtype=dt), 'strided': sbuf[:, 0:3], 'skip': False}[pm]
-            velout = {'alloc': None, 'supplied': np.full((len(data), 3), np.nan, dtype=dt), 'strided': sbuf[:, 4:7], 'skip': False}[vm]
+            # 'exact': a preallocated output with one row per PARTICLE (fewer rows than records when the stream has headers)
+            posout = {'alloc': None, 'supplied': np.full((len(data), 3), np.nan, dtype=dt), 'strided': sbuf[:, 0:3], 'exact': np.full((n, 3), np.nan, dtype=dt), 'skip': False}[pm]
+            velout = {'alloc': None, 'supplied': np.full((len(data), 3), np.nan, dtype=dt), 'strided': sbuf[:, 4:7], 'exact': np.full((n, 3), np.nan, dtype=dt), 'skip': False}[vm]
             r = unpack_pack9(relayout(data, nrun[0]) if len(data) <= 5000 else data.copy(), BOX, VELZ, float_dtype=dt, posout=posout, velout=velout)
             nrun[0] += 1
-            p = r[0] if pm == 'alloc' else (posout[:r[0]] if pm in ('supplied', 'strided') else None)
-            v = r[1] if vm == 'alloc' else (velout[:r[1]] if vm in ('supplied', 'strided') else None)
+            p = r[0] if pm == 'alloc' else (posout[:r[0]] if pm in ('supplied', 'strided', 'exact') else None)
+            v = r[1] if vm == 'alloc' else (velout[:r[1]] if vm in ('supplied', 'strided', 'exact') else None)
             shape_bad = False
             for nm, a, md in (('pos', p, pm), ('vel', v, vm)):
                 if a is None:
